@@ -242,6 +242,28 @@ fn case(srv: &mut Srv, seed: u64, res: &mut CaseResult) -> R<()> {
                 check_scope(res, "http-cat", *c, &fs, json!(q));
             }
         }
+        // a scoped request with a malformed sibling option (or a malformed scope): refused, or still scoped - never
+        // answered with other contexts' frames
+        for bad in ["limit=all", "limit=-1", "limit=", "follow=maybe", "last-id=0", "tail=perhaps"] {
+            let q = format!("/?context-id={}&{}", c, bad);
+            if let Ok(resp) = http::once(&sock, &Req::new("GET", &q), Duration::from_secs(20)) {
+                res.count("http_scoped_requests_with_a_malformed_option", 1);
+                if resp.status == 200 {
+                    let fs: Vec<Frame> = http::ndjson(&resp.body).into_iter().filter_map(|v| serde_json::from_value(v).ok()).collect();
+                    observations += fs.len() as u64;
+                    check_scope(res, "http-cat-malformed-sibling-option", *c, &fs, json!(q));
+                }
+            }
+        }
+        {
+            let q = format!("/?context-id={}x", c);
+            if let Ok(resp) = http::once(&sock, &Req::new("GET", &q), Duration::from_secs(20)) {
+                if resp.status == 200 {
+                    let fs: Vec<Frame> = http::ndjson(&resp.body).into_iter().filter_map(|v| serde_json::from_value(v).ok()).collect();
+                    check_scope(res, "http-cat-malformed-context-id", *c, &fs, json!(q));
+                }
+            }
+        }
         if let Ok(resp) = http::once(&sock, &Req::new("GET", &format!("/?context-id={}", c)).header("Accept", b"text/event-stream"), Duration::from_secs(20)) {
             let fs: Vec<Frame> = http::sse(&resp.body).into_iter().filter_map(|v| serde_json::from_value(v.1).ok()).collect();
             observations += fs.len() as u64;
